@@ -74,6 +74,11 @@ def run_c07(pid, tier):
         for k in "FD":
             stem = rng.choice(STEMS); ext = rng.choice(EXTS); d = rng.choice(DIRS)
             hist.append([(k, d + stem + "." + ext, rand_bytes(rng, n))])
+    # (1a) stems that look as if they carried a hash or a version already (a dash followed by eight word characters, ...)
+    for stem in ["app-minified", "site-combined", "hero-1920x108", "icons-20240131", "x-abcdefgh", "a-b-_9abcdEF", "lib-1_2_3_45", "font-awesome", "app-minified2", "q-1234567", "-12345678", "a-AAAAAAAA"]:
+        for k in "FD":
+            hist.append([(k, rng.choice(DIRS) + stem + "." + rng.choice(["js", "css", "png"]), rand_bytes(rng, rng.choice([0, 3, 40])))])
+        hist.append([("A", "src/" + stem + ".js", "to/" + stem + ".js", b"as")])
     # (1b) text-like extensions x line-ending styles (normalising content before hashing would show here)
     for ext in ["css", "js", "svg", "txt", "html", "htm", "json", "xml", "csv", "map", "md", "scss", "CSS", "png", "bin"]:
         for body in [b"a{b:c}\r\nd{e:f}\r\n", b"x\ry\rz", b"x\ny\n", b"\r\n", b"\xef\xbb\xbfbom\r\n", b"tab\there  \r\n  trailing  \r\n"]:
@@ -119,6 +124,10 @@ def run_c07(pid, tier):
         got = dict(parse_names(a.get("names")))
         vals = set(got.values())
         for op in h:
+            if op[0] == "A":
+                if op[2].encode() not in vals:
+                    oracle_fail.append((h, "add_file_as(%r, %r) is not published under the given name: %r" % (op[1], op[2], sorted(vals)), None)); break
+                continue
             sn = split_name(op[1])
             if sn is None: continue
             want = sn[0] + b"-" + py_slug(op[2]) + b"." + sn[1]
@@ -150,10 +159,34 @@ def run_c07(pid, tier):
                 if want not in vals:
                     oracle_fail.append(("large content %d bytes" % len(op[2]), "url name of a %d-byte file differs from md5/base64 oracle" % len(op[2]), None))
         n_cases += len(big)
+    # (5) the same OUT_DIR over several runs: content replaced by other bytes of the same length with the same
+    #     modification time (cp -p, rsync -t, an edit within the same second), and restored again
+    import build_lib
+    scen = []; wants = []
+    for _ in range(12 if tier == "quick" else 80):
+        nm = rng.choice(["a.css", "img/l.png", "x-1.js"]); n0 = rng.choice([1, 8, 64, 300])
+        c1 = rand_bytes(rng, n0, "rand") or b"x"; c2 = bytes([c1[0] ^ 1]) + c1[1:]
+        prog = [('s',), ('g', 'st')] + ([('g', 'st/img')] if nm.startswith("img/") else [])
+        scen.append([('W', 'st/' + nm, c1), ('W', 'st/keep.txt', b'k'), ('R', prog), ('T', 'st/' + nm, c2), ('R', prog), ('Z',), ('R', prog), ('T', 'st/' + nm, c1), ('R', prog)])
+        wants.append((nm, [c1, c2, c2, c1]))
+    for (nm, cs), r in zip(wants, build_lib.run_scenarios(scen)):
+        runs = [x for x in r["runs"] if x["kind"] == "R"]
+        chk.count(("persist " + nm).encode() + cs[0], True)
+        sn = split_name(nm.rsplit("/", 1)[-1])
+        for k, (run, c) in enumerate(zip(runs, cs)):
+            st = (run["after"].get(b"templates/statics.rs") or (b"", ""))[0] or b""
+            want = sn[0] + b"-" + py_slug(c) + b"." + sn[1]
+            if run["status"] != "ok" or (b'name: "' + want + b'"') not in st:
+                oracle_fail.append(("run %d of 4 on one OUT_DIR, %s rewritten with %d other bytes of the same length and modification time" % (k + 1, nm, len(c)),
+                                    "after the content changed (same length, same mtime) the published name is not the hash of the current content: expected %r" % want, None)); break
+            if "model" in run and run["model"].get("fs", {}).get(b"templates/statics.rs") not in (None, st):
+                disagree.append(("persistent OUT_DIR " + nm, "statics.rs on run %d" % (k + 1), st[-300:], b""))
+    n_cases += len(scen)
     for h in hist[:2] + hist[groups[0][0]:groups[0][0] + 1]:
         chk.sample(dict(ops=[(op[0], op[1], len(op[-1])) for op in h]))
     chk.cov["rule"] = ("add_file / add_file_data histories: content sizes %s and random to 8 KiB (thorough: 1-8 MiB on the implementation vs hashlib), zero/0xff/random/ascii fillings; "
-                       "names from stems %s x extensions; same file sets in 3 orders/directories/entry points; single-byte flips at first/last/interior offsets. "
+                       "names from stems %s x extensions; same file sets in 3 orders/directories/entry points; single-byte flips at first/last/interior offsets; stems that look hashed or versioned already; "
+                       "four runs into one OUT_DIR with the content replaced by other bytes of the same length and modification time and restored again. "
                        "non-trivial = non-empty content; distinct by op list") % (sizes, STEMS[:8])
     chk.notes["size_histogram"] = size_hist
     chk.assumptions += ["md5 0.7 / base64 0.22 crates: modelled (own MD5 and base64 in Coq), tied by correspondence and by the hashlib oracle",
@@ -228,12 +261,19 @@ def run_c08(pid, tier):
     for v in [32, 9, 10, 13, 34, 92, 0, 255, 39, 123]:
         hist.append([("D", "run%d.bin" % v, bytes([v]) * 5000), ("F", "f/run%d.bin" % v, bytes([v]) * 2100)])
     hist.append([("D", "mixed.txt", (b" a\tb \n" * 900))])
+    # data beyond 16 / 32 / 64 KiB: long literals get wrapped or chunked there; blanks and escapes at the chunk marks
+    for v in [32, 9, 10, 92, 34] if tier == "quick" else [32, 9, 10, 13, 92, 34, 0, 255]:
+        hist.append([("D", "wide%d.bin" % v, bytes([v]) * (40000 if tier == "quick" else 70000))])
+    for mark in [1024, 4096, 8192, 16384, 32768] + ([] if tier == "quick" else [65536]):
+        hist.append([("D", "mark%d.css" % mark, b"x" * (mark - 1) + b"   \t \\ \n" + b"y" * 100 + b" " * 3)])
     # names with every ordered pair from a set of characters that matter to Rust literal syntax
     PAIRCH = '"#\\\'{}$r()\n'
     for c1 in PAIRCH:
         for c2 in PAIRCH:
             nm = "p%s%sq.t" % (c1, c2)
             hist.append([("D", nm, b"d"), ("A", "src/y.js", "to/" + nm, b"a")])
+            # ... and in the path of a file read from disk (the include_bytes! argument)
+            hist.append([("F", "d" + c1 + c2 + "/" + nm, b"f"), ("A", "e" + c1 + c2 + ".q", "to/e.q", b"g")])
     # names: every printable ASCII punctuation character in file names and url names; sampled non-ASCII
     for ch in PUNCT:
         if ch == "/": continue
@@ -270,10 +310,36 @@ def run_c08(pid, tier):
             if len(set(ids)) == len(ids) and len(set(u for u, _ in want)) == len(want):
                 if got != want:
                     oracle_fail.append((h, "compiled StaticFile content/name differ from the source bytes / published url name", dict(got=[(n.decode("latin1"), c.hex()[:80]) for n, c in got], want=[(n.decode("latin1"), c.hex()[:80]) for n, c in want])))
+    # add_files / add_files_as over directories that mix files and sub-directories (any read_dir order): name = prefix + relative path, content exact
+    import build_lib
+    scen = []; wants = []
+    for _ in range(15 if tier == "quick" else 120):
+        files = {}
+        for d in ["", "m/", "m/n/", "z/", "0/", "m/n/o/"]:
+            if d == "" or rng.random() < 0.7:
+                for _ in range(rng.randint(0 if d else 1, 3)):
+                    files[d + rng.choice(["a", "b", "inner", "k", "zz", "0", "M"]) + rng.choice([".txt", ".bin", ".css", ""])] = rand_bytes(rng, rng.choice([0, 1, 9, 70]))
+        files = {p: c for p, c in files.items() if not any(q != p and (q.startswith(p + "/") or p.startswith(q + "/")) for q in files)}
+        to = rng.choice(["assets", "", "v/1"])
+        scen.append([('W', 'st/' + p, c) for p, c in sorted(files.items(), key=lambda x: rng.random())] + [('R', [('s',), ('t', 'st', to)])])
+        wants.append((to, files))
+    rsb = build_lib.run_scenarios(scen)
+    for sc, r in zip(scen, rsb): r["key"] = build_lib.scenario_line(sc)
+    for (to, files), r in zip(wants, rsb):
+        run = [x for x in r["runs"] if x["kind"] == "R"][0]
+        chk.count(r["key"].encode(), True)
+        st = (run["after"].get(b"templates/statics.rs") or (b"", ""))[0] or b""
+        got = sorted(re.findall(rb'\n  name: "((?:[^"\\]|\\.)*)",', st))
+        want = sorted(((to + "/") if to else "").encode() + p.encode() for p in files)
+        if run["status"] != "ok" or got != want:
+            oracle_fail.append((r["key"], "add_files_as(st, %r) over a tree mixing files and sub-directories publishes %r, expected %r" % (to, got, want), None)); continue
+        if "model" in run and run["model"].get("fs", {}).get(b"templates/statics.rs") not in (None, st):
+            disagree.append((r["key"], "statics.rs of add_files_as", st[-300:].decode("latin1"), ""))
     for h in hist[:1] + hist[60:62]:
         chk.sample(dict(ops=[(op[0], op[1], op[2] if op[0] == "A" else len(op[2])) for op in h]))
     chk.cov["rule"] = ("contents: all 256 byte values alone / in context / all together, lengths 0..4096; names with every printable ASCII punctuation character, quotes, backslash, "
-                       "control characters and sampled non-ASCII (incl. U+200B, U+0300, U+FEFF); entry points add_file, add_file_as, add_file_data (add_files / add_files_as through C09/C17); "
+                       "control characters and sampled non-ASCII (incl. U+200B, U+0300, U+FEFF), also in the directory part of files read from disk; data of 40000 (70000) equal bytes and blanks / escapes "
+                       "at the 1-64 KiB marks; entry points add_file, add_file_as, add_file_data, and add_files_as over trees mixing files and sub-directories; "
                        "each generated statics.rs compared with the model byte for byte AND compiled with rustc, content/name read back. distinct by op list")
     chk.assumptions += ["rustc's literal lexer: modelled in RustLit.v for the theorems, and exercised directly by the compile-and-read-back batches"]
     return finish_checks(chk, proof, info, disagree, oracle_fail, len(hist))
@@ -465,11 +531,75 @@ def run_c20(pid, tier):
             wurl = sn[0] + b"-" + py_slug(css) + b".css"
             if wurl not in names.values():
                 oracle_fail.append((h, "compiled css is not published as <stem>-<hash of css>.css with the resolved url %r inside (names: %r)" % (want, sorted(names.values())), None))
+    # ---- stylesheets with several references and with non-ASCII output (implementation against the statement itself; the
+    #      model has one reference per stylesheet and takes the compiled css as given)
+    def rust_bytes(lit):
+        out = bytearray(); i = 0
+        while i < len(lit):
+            c = lit[i]
+            if c == 0x5c:
+                n = lit[i + 1:i + 2]
+                m = {b"n": 10, b"r": 13, b"t": 9, b"\\": 92, b"0": 0, b"'": 39, b'"': 34}
+                if n in m: out.append(m[n]); i += 2; continue
+                if n == b"x": out.append(int(lit[i + 2:i + 4], 16)); i += 4; continue
+                if n == b"\n":
+                    i += 2
+                    while i < len(lit) and lit[i] in b" \t\n\r": i += 1
+                    continue
+                raise ValueError(lit[i:i + 6])
+            out.append(c); i += 1
+        return bytes(out)
+    multi = []
+    mpool = ["font-awesome.woff", "a.css", "a-b.css", "x y.js", "d-1.2.min.js", "17.css"]
+    for _ in range(60 if tier == "quick" else 500):
+        mem = rng.sample(mpool, rng.randint(1, 3))
+        added = {}
+        h = [("D", m0, m0.encode()) for m0 in mem]
+        for op, u in zip(h, published_urls(h)): added[op[1]] = u
+        refs = []
+        for _ in range(rng.randint(2, 4)):
+            base = rng.choice(mem)
+            r = rng.random()
+            if r < 0.5: refs.append(base)
+            else:
+                i = rng.randrange(len(base))
+                refs.append(base[:i] + rng.choice("-._ ") + base[i + 1:] if base[i] in "-._ " else rng.choice(["nope.css", base + "x"]))
+        extra = rng.choice(["", "", 'z{content:"\u2192"}', 'z{font-family:"Gr\u00fc\u00df"}', "/* \u00e9 */"])
+        scss = extra + "".join("r%d{u:static_name(\"%s\")}" % (k, x) for k, x in enumerate(refs))
+        multi.append((h, refs, added, scss))
+    lines = []
+    for h, refs, added, scss in multi:
+        lines.append(impl_line(h) + " W:%s:%s S:%s" % (hx("scss/multi.scss"), hx(scss.encode()), hx("scss/multi.scss")))
+    outs = [parse_fields(l) for l in run_capture(HARNESS, "statics", lines)]
+    nmulti = 0
+    for (h, refs, added, scss), a in zip(multi, outs):
+        chk.count(scss.encode() + impl_line(h).encode(), True); nmulti += 1
+        ok_impl = bool(a.get("op")) and a["op"][-1] == "ok"
+        key = (h + [("S", "scss/multi.scss", scss)])
+        if any(r not in added for r in refs):
+            if ok_impl:
+                bad = [r for r in refs if r not in added]
+                oracle_fail.append((key, "a stylesheet referring to %r, which was never added (added: %s), compiled without an error" % (bad[0], sorted(added)), scss)); continue
+        else:
+            if not ok_impl:
+                oracle_fail.append((key, "a stylesheet whose static_name() references are all members (%s) failed to build" % refs, unhexs(a["op"][-1]).decode("latin1")[:300] if a.get("op") else None)); continue
+            st = unhexs(a.get("statics", "-"))
+            m0 = re.search(rb'pub static multi_css: StaticFile = StaticFile \{\n  content: b"((?:[^"\\]|\\.|\\\n)*)",\n  name: "((?:[^"\\]|\\.)*)"', st)
+            if not m0:
+                oracle_fail.append((key, "no item for the compiled stylesheet multi.css in statics.rs", st[-400:].decode("latin1"))); continue
+            css = rust_bytes(m0.group(1)); name = m0.group(2)
+            if name != b"multi-" + py_slug(css) + b".css":
+                oracle_fail.append((key, "the compiled css is published as %r, which is not multi-<hash of the embedded css bytes>.css (%r)" % (name, b"multi-" + py_slug(css) + b".css"), css[:120].decode("latin1"))); continue
+            for r in refs:
+                if added[r] not in css:
+                    oracle_fail.append((key, "static_name(%r) did not resolve to the published name %r inside the compiled css" % (r, added[r]), css[:300].decode("latin1"))); break
+    chk.notes["multi_reference_stylesheets"] = nmulti
     for h in hist[:3]:
         chk.sample(dict(ops=[(op[0], op[1], op[2] if op[0] in "AS" else len(op[2])) for op in h]))
     chk.notes["references_to_members"] = nmem
     chk.cov["rule"] = ("sets of 0-5 previously added files (add_file / add_file_as / add_file_data) from %s, then add_sass_file of a{b:static_name(\"<ref>\")} with <ref> a member (%d cases), a non-member, "
                        "or a near miss obtained by swapping '-', '.', '_' in a member; compared: Err vs Ok, statics.rs and get_names() with the model; oracle: members resolve to their published name inside css "
-                       "that is itself published under its hash, non-members are build errors. non-trivial = at least one file added before; distinct by op list") % (pool, nmem)
+                       "that is itself published under its hash, non-members are build errors; plus stylesheets with 2-4 references (members, near misses that mangle to a member's identifier, "
+                       "in either order) and non-ASCII content, checked on the implementation: Err iff some reference is a non-member, the embedded css hashes to its name. non-trivial = at least one file added before; distinct by op list") % (pool, nmem)
     chk.assumptions += ["rsass is an oracle: on scss of the fixed shape a{b:static_name(\"ref\")} it yields a{b:\"url\"}\\n or the builtin's error"]
     return finish_checks(chk, proof, info, disagree, oracle_fail, len(hist))
